@@ -455,6 +455,7 @@ func checkC23(c *Ctx, r *Report) {
 				r.bad("R4", key, c.instrPos(w), "bytes are written to a connection outside the sender function: the datagram is not one packet produced by Pack()")
 			}
 		}
+		c.checkConnEscapes(r, "R4", rel, mq)
 	}
 	// R5: size bound at the single writers (R4 makes them the choke points)
 	for _, rel := range []string{"gateway", "client"} {
